@@ -55,6 +55,7 @@ EXPLANATION = (
     "evaluated for sub = 0..3, bit set exactly when unanswered, success returns the four accumulated words); R7 structural assumptions shared by all properties: no class-level mutable object is mutated in place by instances, no method re-runs the constructor, logging statements cannot raise (typed eager formatting, divisions), no mutable default argument is kept or mutated, no new truth-value test of a None-able number, a look-up memory the pinned tree does not have is keyed by all its inputs (arithmetic keys folded over a grid of addresses) and, on the serving side, emptied somewhere."
     ' R4 also: every LSS response specifier of CiA 305 passes any early exit of on_message_received.'
     ' R3 also: the delegating methods do not re-bind their parameters.'
+    ' R3 also: every call of a delegating service reaches its request (no early return of a remembered answer, no range check in front of it).'
 )
 ASSUMPTIONS = [
     "not decided: the 128-bit search result against a slave model, timing (sleep) requirements of slaves",
